@@ -623,8 +623,9 @@ class MyPyAstVisitor:
 
             # We have to sort the list for the snapshot tests
             return_stmt_types = list(types)
+            # (The representation is the second key, so that e.g. tuples of the same length have a defined order too)
             return_stmt_types.sort(
-                key=lambda x: (x.name if isinstance(x, sds_types.NamedType) else str(len(x.types))),
+                key=lambda x: (x.name if isinstance(x, sds_types.NamedType) else str(len(x.types)), repr(x)),
             )
 
             return sds_types.TupleType(types=return_stmt_types)
